@@ -158,7 +158,7 @@ def shard(tier, seed, n):
 
 def run(tier, seed):
     t0 = time.time()
-    total = 1600 if tier == 'quick' else 48000
+    total = 3200 if tier == 'quick' else 48000
     nsh = common.NPROC
     jobs = [dict(tier=tier, seed=0, n=None)] + [dict(tier=tier, seed=s, n=total // nsh) for s in common.shard_seeds(seed, nsh)]
     stats = common.run_shards(__name__, 'shard', jobs)
